@@ -6,6 +6,7 @@
 import MbVerif.Proofs.Exhausted
 import MbVerif.Proofs.NonInterf
 import MbVerif.Proofs.LogCount
+import MbVerif.Proofs.SigCount
 
 namespace Mb.Countdown
 variable {σ : Type} (ρ : Oracle σ)
@@ -1259,5 +1260,473 @@ theorem countdown_blockingBegin_fire (mi : Nat) (m : Machine) (st : State) (a : 
       { r with stateLimit := r.stateLimit - ts.length, zeroedA := r.zeroedA && ts.isEmpty,
                zeroedB := r.zeroedB && ts.isEmpty } m st a c1 c2 hne hst htr (c3 hlen) hact hl
       (by show r.stateLimit - ts.length ≤ 1; omega)
+
+/-! ### a machine's limit is decremented by its own completions only (any batch of events) -/
+
+/-- the weight vanishes on everything but decrement entries (`limit _ _ true`) -/
+def DecOnly (μ : LogEntry → Nat) : Prop := ∀ e, (∀ i x, e ≠ .limit i x true) → μ e = 0
+
+/-- weight 1 on the decrements of machine `mi`'s limit -/
+def μDec (mi : Nat) : LogEntry → Nat
+  | .limit m _ d => if m = mi ∧ d = true then 1 else 0
+  | _ => 0
+
+theorem μDec_decOnly (mi : Nat) : DecOnly (μDec mi) := by
+  intro e he
+  cases e with
+  | limit m x d =>
+    cases d with
+    | true => exact absurd rfl (he m x)
+    | false => simp [μDec]
+  | _ => rfl
+
+/-- decrements of machine `mi`'s limit according to the log -/
+def decOf (mi : Nat) (s : Fw σ) : Nat := wsum (μDec mi) s.log
+
+section
+variable {μ : LogEntry → Nat}
+
+theorem dq_push (hμ : DecOnly μ) (s : Fw σ) (e : LogEntry) (he : ∀ i x, e ≠ .limit i x true) :
+    QuietLog μ s (s.push e) := ⟨by simp [Fw.push, wsum_cons, hμ e he]⟩
+
+theorem dq_distSample (hμ : DecOnly μ) (d : Dist) (s : Fw σ) : QuietLog μ s (distSample ρ d s).2 := by
+  unfold distSample
+  exact ⟨by simp [Fw.push, wsum_cons, hμ (.distRaw _) (fun _ _ h => by cases h)]⟩
+
+theorem dq_sampleLimit (hμ : DecOnly μ) (a : Action) (s : Fw σ) : QuietLog μ s (sampleLimit ρ a s).2 := by
+  unfold sampleLimit; split
+  · exact QuietLog.refl μ s
+  · exact dq_distSample ρ hμ _ s
+
+theorem dq_sampleValue (hμ : DecOnly μ) (c : Counter) (s : Fw σ) : QuietLog μ s (sampleValue ρ c s).2 := by
+  unfold sampleValue; split
+  · exact QuietLog.refl μ s
+  · exact dq_distSample ρ hμ _ s
+
+theorem dq_sampleTimeout (hμ : DecOnly μ) (a : Action) (s : Fw σ) : QuietLog μ s (sampleTimeout ρ a s).2 := by
+  unfold sampleTimeout; split
+  · exact dq_distSample ρ hμ _ s
+  · exact dq_distSample ρ hμ _ s
+  · exact QuietLog.refl μ s
+
+theorem dq_sampleDuration (hμ : DecOnly μ) (a : Action) (s : Fw σ) : QuietLog μ s (sampleDuration ρ a s).2 := by
+  unfold sampleDuration; split
+  · exact dq_distSample ρ hμ _ s
+  · exact dq_distSample ρ hμ _ s
+  · exact QuietLog.refl μ s
+
+theorem dq_enterState (hμ : DecOnly μ) (mi : Nat) (m : Machine) (cur next : Nat) (s : Fw σ) :
+    QuietLog μ s (enterState ρ mi m cur next s) := by
+  unfold enterState
+  split
+  · simp only
+    have h1 : QuietLog μ s (s.modRt mi (fun r => { r with currentState := next })) := quiet_modRt s mi _
+    split
+    · exact h1.trans (quiet_withFault _ _)
+    · split
+      · next a _ =>
+        exact ((h1.trans (dq_sampleLimit ρ hμ a _)).trans (quiet_modRt _ mi _)).trans
+          (dq_push hμ _ _ (fun _ _ h => by cases h))
+      · exact (h1.trans (quiet_modRt _ mi _)).trans (dq_push hμ _ _ (fun _ _ h => by cases h))
+  · exact QuietLog.refl μ s
+
+theorem dq_counterOperand (hμ : DecOnly μ) (c : Counter) (other : Nat) (s : Fw σ) :
+    QuietLog μ s (counterOperand ρ c other s).2 := by
+  unfold counterOperand; split
+  · exact QuietLog.refl μ s
+  · exact dq_sampleValue ρ hμ c s
+
+theorem dq_applyCounterA (hμ : DecOnly μ) (mi : Nat) (c : Option Counter) (oldA oldB : Nat) (s : Fw σ) :
+    QuietLog μ s (applyCounterA ρ mi c oldA oldB s).1 := by
+  unfold applyCounterA
+  cases c with
+  | none => exact QuietLog.refl μ s
+  | some c => exact (dq_counterOperand ρ hμ c oldB s).trans (quiet_storeCounterA mi _ _ _)
+
+theorem dq_applyCounterB (hμ : DecOnly μ) (mi : Nat) (c : Option Counter) (oldA oldB : Nat) (s : Fw σ) :
+    QuietLog μ s (applyCounterB ρ mi c oldA oldB s).1 := by
+  unfold applyCounterB
+  cases c with
+  | none => exact QuietLog.refl μ s
+  | some c => exact (dq_counterOperand ρ hμ c oldA s).trans (quiet_storeCounterB mi _ _ _)
+
+theorem dq_scheduleAction (hμ : DecOnly μ) (mi next : Nat) (s : Fw σ) :
+    QuietLog μ s (scheduleAction ρ mi next s) := by
+  unfold scheduleAction
+  cases hm : s.machines[mi]? with
+  | none => exact quiet_withFault s _
+  | some m =>
+    simp only []
+    cases hst : m.states[next]? with
+    | none => exact quiet_withFault s _
+    | some st =>
+      simp only []
+      split
+      · exact quiet_withFault s _
+      · cases hact : st.action with
+        | none => exact ⟨rfl⟩
+        | some act =>
+          cases act with
+          | cancel t => exact ⟨rfl⟩
+          | sendPadding b rp tmo lim =>
+            simp only
+            exact (dq_sampleTimeout ρ hμ _ s).trans ⟨rfl⟩
+          | blockOutgoing b rp tmo du lim =>
+            simp only
+            exact ((dq_sampleTimeout ρ hμ _ s).trans (dq_sampleDuration ρ hμ _ _)).trans ⟨rfl⟩
+          | updateTimer rp du lim =>
+            simp only
+            exact (dq_sampleDuration ρ hμ _ s).trans ⟨rfl⟩
+
+/-- no transition (with all its CounterZero follow-ups) ever logs a decrement -/
+theorem dq_main (hμ : DecOnly μ) (fuel : Nat) :
+    (∀ mi ev (s : Fw σ), QuietLog μ s (transition ρ fuel mi ev s).1) ∧
+    (∀ mi (s : Fw σ), QuietLog μ s (updateCounter ρ fuel mi s).1) := by
+  induction fuel with
+  | zero =>
+    refine ⟨fun mi ev s => ?_, fun mi s => ?_⟩
+    · rw [transition]; exact quiet_withFault _ _
+    · rw [updateCounter]; exact quiet_withFault _ _
+  | succ n ih =>
+    obtain ⟨ihT, ihU⟩ := ih
+    refine ⟨fun mi ev s => ?_, fun mi s => ?_⟩
+    · rw [transition]
+      cases hr : s.rt[mi]? with
+      | none => exact quiet_withFault _ _
+      | some r =>
+      cases hm : s.machines[mi]? with
+      | none => exact quiet_withFault _ _
+      | some m =>
+      simp only []
+      have h0 : QuietLog μ s (s.push (.trans mi ev.toNat r.currentState)) := dq_push hμ _ _ (fun _ _ h => by cases h)
+      split
+      · exact h0
+      · cases hst : m.states[r.currentState]? with
+        | none => exact h0.trans (quiet_withFault _ _)
+        | some st =>
+        simp only []
+        cases htr : st.transitions[ev.toNat]? with
+        | none => exact h0.trans (quiet_withFault _ _)
+        | some ov =>
+        cases ov with
+        | none => exact h0
+        | some vec =>
+        simp only []
+        have h1 : QuietLog μ s (({ s.push (.trans mi ev.toNat r.currentState) with
+              rng := (ρ.u (s.push (.trans mi ev.toNat r.currentState)).rng).2 }).push
+            (.draw (ρ.u (s.push (.trans mi ev.toNat r.currentState)).rng).1)) :=
+          h0.trans (QuietLog.trans (t := { s.push (.trans mi ev.toNat r.currentState) with
+              rng := (ρ.u (s.push (.trans mi ev.toNat r.currentState)).rng).2 }) ⟨rfl⟩
+            (dq_push hμ _ _ (fun _ _ h => by cases h)))
+        split
+        · exact h1
+        · next nxt _ =>
+          have h2 := h1.trans (dq_push hμ _ (.sampled mi ev.toNat nxt) (fun _ _ h => by cases h))
+          split
+          · exact h2.trans (quiet_modRt _ _ _)
+          · split
+            · exact h2.trans ⟨rfl⟩
+            · have h3 := h2.trans (dq_enterState ρ hμ mi m r.currentState nxt _)
+              generalize enterState ρ mi m r.currentState nxt _ = s3 at h3 ⊢
+              cases hr3 : s3.rt[mi]? with
+              | none => exact h3.trans (quiet_withFault _ _)
+              | some r1 =>
+              simp only []
+              cases hb : belowActionLimits s3.g r1 m with
+              | none => exact h3.trans (quiet_withFault _ _)
+              | some below =>
+              simp only []
+              have h4 := h3.trans (ihU mi s3)
+              have h5 : QuietLog μ s (if ((updateCounter ρ n mi s3).2.1 && below) = true
+                  then scheduleAction ρ mi nxt (updateCounter ρ n mi s3).1 else (updateCounter ρ n mi s3).1) := by
+                split
+                · exact h4.trans (dq_scheduleAction ρ hμ mi nxt _)
+                · exact h4
+              generalize (if ((updateCounter ρ n mi s3).2.1 && below) = true
+                  then scheduleAction ρ mi nxt (updateCounter ρ n mi s3).1 else (updateCounter ρ n mi s3).1) = s5 at h5 ⊢
+              cases hr5 : s5.rt[mi]? with
+              | none => exact h5.trans (quiet_withFault _ _)
+              | some r2 => exact h5
+    · rw [updateCounter]
+      cases hr : s.rt[mi]? with
+      | none => exact quiet_withFault _ _
+      | some r =>
+      cases hm : s.machines[mi]? with
+      | none => exact quiet_withFault _ _
+      | some m =>
+      simp only []
+      cases hst : m.states[r.currentState]? with
+      | none => exact quiet_withFault _ _
+      | some st =>
+      simp only []
+      have hA := dq_applyCounterA ρ hμ mi st.counterA r.counterA r.counterB s
+      generalize applyCounterA ρ mi st.counterA r.counterA r.counterB s = ra at hA ⊢
+      have hB := dq_applyCounterB ρ hμ mi st.counterB r.counterA r.counterB ra.1
+      generalize applyCounterB ρ mi st.counterB r.counterA r.counterB ra.1 = rb at hB ⊢
+      have h2 : QuietLog μ s (rb.1.push (.counter mi r.counterA (counterAOf rb.1 mi) r.counterB (counterBOf rb.1 mi))) :=
+        (hA.trans hB).trans (dq_push hμ _ _ (fun _ _ h => by cases h))
+      split
+      · have hT := h2.trans (ihT mi .counterZero _)
+        split
+        · exact hT.trans (quiet_withFault _ _)
+        · exact hT
+      · exact h2
+
+end
+
+theorem dec_transition (mi j : Nat) (ev : Event) (s : Fw σ) : decOf mi (transition ρ FUEL j ev s).1 = decOf mi s :=
+  ((dq_main ρ (μDec_decOnly mi) FUEL).1 j ev s).w
+
+theorem dec_same {mi : Nat} {s t : Fw σ} (h : t.log = s.log) : decOf mi t = decOf mi s := by
+  unfold decOf; rw [h]
+
+/-- a limit decrement for machine `j` logs exactly one decrement, of `j` -/
+theorem dec_decrement (mi j : Nat) (s : Fw σ) :
+    decOf mi (decrementLimit ρ j s) ≤ decOf mi s + (if j = mi then 1 else 0) := by
+  unfold decrementLimit
+  cases hr : s.rt[j]? with
+  | none => exact Nat.le_trans (Nat.le_of_eq (dec_same (s := s) (by simp))) (Nat.le_add_right _ _)
+  | some r =>
+  cases hm : s.machines[j]? with
+  | none => exact Nat.le_trans (Nat.le_of_eq (dec_same (s := s) (by simp))) (Nat.le_add_right _ _)
+  | some m =>
+  simp only []
+  generalize (if r.stateLimit > 0 then r.stateLimit - 1 else r.stateLimit) = lim
+  have h1 : decOf mi ((s.modRt j (fun r' => { r' with stateLimit := lim })).push (.limit j lim true)) =
+      decOf mi s + (if j = mi then 1 else 0) := by
+    simp [decOf, Fw.push, wsum_cons, μDec]; omega
+  generalize (s.modRt j (fun r' => { r' with stateLimit := lim })).push (.limit j lim true) = s1 at h1 ⊢
+  cases hst : m.states[r.currentState]? with
+  | none => exact Nat.le_of_eq ((dec_same (s := s1) (by simp)).trans h1)
+  | some st =>
+  simp only []
+  cases hact : st.action with
+  | none => exact Nat.le_of_eq h1
+  | some a =>
+    simp only []
+    split
+    · split
+      · exact Nat.le_of_eq ((dec_same (s := s1) (by simp)).trans h1)
+      · rw [dec_transition]
+        exact Nat.le_of_eq ((dec_same (s := s1) rfl).trans h1)
+    · exact Nat.le_of_eq h1
+
+theorem dec_fold0 {α : Type} (mi : Nat) (F : Fw σ → α → Fw σ) (h : ∀ s j, decOf mi (F s j) ≤ decOf mi s)
+    (l : List α) (s : Fw σ) : decOf mi (l.foldl F s) ≤ decOf mi s := by
+  induction l generalizing s with
+  | nil => exact Nat.le_refl _
+  | cons a l ih => exact Nat.le_trans (ih (F s a)) (h s a)
+
+/-- is this event a completion reported for machine `mi` -/
+def TEvent.completes (mi : Nat) : TEvent → Bool
+  | .paddingSent m => m == mi
+  | .blockingBegin m => m == mi
+  | .timerBegin m => m == mi
+  | _ => false
+
+/-- **An event decrements `mi`'s limit at most once, and only if it is a completion for `mi`.** -/
+theorem dec_processEvent (mi : Nat) (e : TEvent) (s : Fw σ) :
+    decOf mi (processEvent ρ e s) ≤ decOf mi s + (if TEvent.completes mi e then 1 else 0) := by
+  have hall : ∀ (ev : Event) (s' : Fw σ), decOf mi (transitionAll ρ ev s') ≤ decOf mi s' := by
+    intro ev s'
+    unfold transitionAll
+    exact dec_fold0 mi _ (fun s j => Nat.le_of_eq (dec_transition ρ mi j ev s)) _ _
+  have hTD : ∀ (j : Nat) (ev : Event) (s' : Fw σ) (c : Fw σ × Bool → Bool),
+      decOf mi (if c (transition ρ FUEL j ev s') = true then decrementLimit ρ j (transition ρ FUEL j ev s').1
+        else (transition ρ FUEL j ev s').1) ≤ decOf mi s' + (if j = mi then 1 else 0) := by
+    intro j ev s' c
+    have h := dec_transition ρ mi j ev s'
+    split
+    · have := dec_decrement ρ mi j (transition ρ FUEL j ev s').1
+      omega
+    · omega
+  unfold processEvent
+  cases e with
+  | normalRecv => simpa [TEvent.completes] using hall _ s
+  | paddingRecv => simpa [TEvent.completes] using hall _ s
+  | tunnelRecv => simpa [TEvent.completes] using hall _ s
+  | tunnelSent => simpa [TEvent.completes] using hall _ s
+  | normalSent =>
+    simp only [TEvent.completes, Bool.false_eq_true, if_false, Nat.add_zero]
+    refine dec_fold0 mi _ (fun s j => ?_) _ _
+    rw [dec_transition]
+    exact Nat.le_of_eq (dec_same (by simp))
+  | paddingSent x =>
+    simp only [TEvent.completes, beq_iff_eq]
+    split
+    · exact Nat.le_add_right _ _
+    · have := hTD x .paddingSent
+        (({ s with g := { s.g with paddingSent := s.g.paddingSent + 1 } } : Fw σ).modRt x
+          (fun r => { r with acct := { r.acct with paddingSent := r.acct.paddingSent + 1 } }))
+        (fun p => !p.2 && notEnded p.1 x)
+      refine Nat.le_trans this (Nat.le_of_eq ?_)
+      rw [dec_same (s := s) (by simp)]
+  | blockingBegin x =>
+    simp only [TEvent.completes, beq_iff_eq]
+    generalize hb : (if !s.g.blockingActive then
+        ({ s with g := { s.g with blockingActive := true, blockingStarted := s.g.now } } : Fw σ) else s) = b
+    have hb0 : decOf mi b = decOf mi s := by subst hb; split <;> rfl
+    by_cases hx : x = mi
+    · subst hx
+      have := wsum_foldl (μ := μDec x) (fun (s : Fw σ) k =>
+          if (fun p : Fw σ × Bool => !p.2 && notEnded p.1 k && k == x) (transition ρ FUEL k .blockingBegin s) = true
+          then decrementLimit ρ k (transition ρ FUEL k .blockingBegin s).1 else (transition ρ FUEL k .blockingBegin s).1)
+        (fun k => if k = x then 1 else 0)
+        (fun s k => hTD k .blockingBegin s (fun p => !p.2 && notEnded p.1 k && k == x)) (List.range b.rt.length) b
+      have hs := sum_indicator_nodup x _ (List.nodup_range (n := b.rt.length))
+      have hle : (if x ∈ List.range b.rt.length then 1 else 0) ≤ 1 := by split <;> omega
+      simp only [if_true]
+      refine Nat.le_trans this ?_
+      unfold decOf at hb0 ⊢
+      omega
+    · simp only [hx, if_false, Nat.add_zero]
+      refine Nat.le_trans (dec_fold0 mi _ (fun a k => ?_) _ _) (Nat.le_of_eq hb0)
+      show decOf mi (if (fun p : Fw σ × Bool => !p.2 && notEnded p.1 k && k == x) (transition ρ FUEL k .blockingBegin a) = true
+        then decrementLimit ρ k (transition ρ FUEL k .blockingBegin a).1 else (transition ρ FUEL k .blockingBegin a).1) ≤ _
+      by_cases hk : k = x
+      · have := hTD k .blockingBegin a (fun p => !p.2 && notEnded p.1 k && k == x)
+        have hkm : ¬ k = mi := by rw [hk]; exact hx
+        simpa [hkm] using this
+      · have hkb : (k == x) = false := by simpa using hk
+        simp only [hkb, Bool.and_false, Bool.false_eq_true, if_false]
+        exact Nat.le_of_eq (dec_transition ρ mi k .blockingBegin a)
+  | blockingEnd =>
+    simp only [TEvent.completes, Bool.false_eq_true, if_false, Nat.add_zero]
+    generalize (if s.g.blockingActive then durSince s.g.now s.g.blockingStarted else 0) = blocked
+    refine Nat.le_trans (dec_fold0 mi _ (fun s' j => ?_) _ _) ?_
+    · rw [dec_transition]
+      unfold decOf
+      split
+      · cases s'.rt[j]? with
+        | none => simp
+        | some r => simp only []; split <;> simp
+      · exact Nat.le_refl _
+    · unfold decOf
+      split
+      · split <;> simp
+      · exact Nat.le_refl _
+  | timerBegin x =>
+    simp only [TEvent.completes, beq_iff_eq]
+    split
+    · exact Nat.le_add_right _ _
+    · exact hTD x .timerBegin s (fun p => !p.2 && notEnded p.1 x)
+  | timerEnd x =>
+    simp only [TEvent.completes, Bool.false_eq_true, if_false, Nat.add_zero]
+    split
+    · exact Nat.le_refl _
+    · exact Nat.le_of_eq (dec_transition ρ mi x .timerEnd s)
+
+/-- the signal round never decrements a limit -/
+theorem dec_signalRound (mi : Nat) (s : Fw σ) : decOf mi (signalRound ρ s) = decOf mi s := by
+  have hfold : ∀ (excluded : Option Nat) (n : Nat) (a : Fw σ),
+      decOf mi ((List.range n).foldl (fun s j =>
+        if (excluded == some j) = true then s else (transition ρ FUEL j .signal s).1) a) = decOf mi a := by
+    intro excluded n a
+    generalize List.range n = l
+    induction l generalizing a with
+    | nil => rfl
+    | cons j l ih =>
+      simp only [List.foldl_cons]
+      rw [ih]
+      split
+      · rfl
+      · exact dec_transition ρ mi j .signal a
+  unfold signalRound
+  cases hsig : s.signalPending with
+  | none => rfl
+  | some sig =>
+    cases sig with
+    | all =>
+      simp only []
+      have h3 := hfold none s.rt.length { s with signalPending := none }
+      generalize ((List.range s.rt.length).foldl (fun s j =>
+          if ((none : Option Nat) == some j) = true then s else (transition ρ FUEL j .signal s).1)
+          ({ s with signalPending := none } : Fw σ)) = s2 at h3 ⊢
+      cases hs2 : s2.signalPending with
+      | none => exact h3
+      | some _ => exact h3
+    | allExcept x =>
+      simp only []
+      have h3 := hfold (some x) s.rt.length { s with signalPending := none }
+      generalize ((List.range s.rt.length).foldl (fun s j =>
+          if (some x == some j) = true then s else (transition ρ FUEL j .signal s).1)
+          ({ s with signalPending := none } : Fw σ)) = s2 at h3 ⊢
+      cases hs2 : s2.signalPending with
+      | none => exact h3
+      | some _ =>
+        simp only []
+        rw [dec_transition]
+        exact h3
+
+/-- **One call decrements `mi`'s limit at most as often as the call reports completions for `mi`** -/
+theorem dec_triggerEvents (mi : Nat) (es : List TEvent) (t : Int) (s : Fw σ) :
+    decOf mi (triggerEvents ρ es t s) ≤ decOf mi s + es.countP (TEvent.completes mi) := by
+  unfold triggerEvents
+  rw [dec_signalRound]
+  have h0 : decOf mi (s.callStart t) = decOf mi s := rfl
+  rw [← h0]
+  generalize s.callStart t = a
+  induction es generalizing a with
+  | nil => simp
+  | cons e es ih =>
+    simp only [List.foldl_cons, List.countP_cons]
+    have h1 := dec_processEvent ρ mi e a
+    have h2 := ih (processEvent ρ e a)
+    omega
+
+/-- the same over a history -/
+theorem dec_runCalls (mi : Nat) (h : List Call) (s : Fw σ) :
+    decOf mi (runCalls ρ s h) ≤ decOf mi s + (h.map (fun c => c.1.countP (TEvent.completes mi))).sum := by
+  unfold runCalls
+  induction h generalizing s with
+  | nil => simp
+  | cons c cs ih =>
+    simp only [List.foldl_cons, List.map_cons, List.sum_cons]
+    have h1 := dec_triggerEvents ρ mi c.1 c.2 s
+    have h2 := ih (triggerEvents ρ c.1 c.2 s)
+    omega
+
+/-- is this log entry a decrement of machine `mi`'s limit -/
+def isDecrementOf (mi : Nat) : LogEntry → Bool
+  | .limit m _ d => m == mi && d
+  | _ => false
+
+theorem wsum_μDec (mi : Nat) (l : List LogEntry) : wsum (μDec mi) l = l.countP (isDecrementOf mi) := by
+  induction l with
+  | nil => rfl
+  | cons e l ih =>
+    rw [wsum_cons, List.countP_cons, ih]
+    cases e with
+    | limit m x d => cases d <;> by_cases hm : m = mi <;> (simp [μDec, isDecrementOf, hm]; try omega)
+    | _ => simp [μDec, isDecrementOf]
+
+/-- log-segment form: the segment a history adds to the log holds at most as many decrements of
+    `mi`'s limit as the history reports completions for `mi` -/
+theorem decrements_le_completions (mi : Nat) (h : List Call) (s : Fw σ) :
+    ∃ l, (runCalls ρ s h).log = l ++ s.log ∧
+      l.countP (isDecrementOf mi) ≤ (h.map (fun c => c.1.countP (TEvent.completes mi))).sum := by
+  obtain ⟨l, hl⟩ := runCalls_logExt ρ h s
+  refine ⟨l, hl, ?_⟩
+  have := dec_runCalls ρ mi h s
+  unfold decOf at this
+  rw [hl, wsum_append, wsum_μDec] at this
+  omega
+
+/-- a history that reports no completion for `mi` never decrements `mi`'s limit -/
+theorem no_completion_no_decrement (mi : Nat) (h : List Call) (s : Fw σ)
+    (hno : ∀ c ∈ h, ∀ e ∈ c.1, TEvent.completes mi e = false) :
+    ∃ l, (runCalls ρ s h).log = l ++ s.log ∧ ∀ x, LogEntry.limit mi x true ∉ l := by
+  obtain ⟨l, hl, hle⟩ := decrements_le_completions ρ mi h s
+  refine ⟨l, hl, fun x hmem => ?_⟩
+  have hz : (h.map (fun c => c.1.countP (TEvent.completes mi))).sum = 0 := by
+    apply List.sum_eq_zero
+    intro n hn
+    obtain ⟨c, hc, rfl⟩ := List.mem_map.mp hn
+    rw [List.countP_eq_zero]
+    intro e he
+    simp [hno c hc e he]
+  have hpos : 0 < l.countP (isDecrementOf mi) :=
+    List.countP_pos_iff.mpr ⟨_, hmem, by simp [isDecrementOf]⟩
+  omega
 
 end Mb.Countdown
